@@ -130,6 +130,21 @@ def ecm128Select (n curves : Nat) : String :=
     go ((List.range curves).map (· + 1))
   | _ => "panic"
 
+/-- `ecm128Select` on the lawful context `finCtx n` (`n > 0`): what the op `ecm128_select` answers -/
+def ecm128SelectFin (n : Nat) [NeZero n] (curves : Nat) : String :=
+  match suyamaNewFin n false with
+  | .ok (a, b, gx, gy) =>
+    let rec go : List Nat → String
+      | [] => "none"
+      | s :: rest =>
+        match select128Fin n a b gx gy s with
+        | .gen _ => s!"curve {s}"
+        | .factor p => s!"{p} {n / p}"
+        | .skip => go rest
+        | .panic => "panic"
+    go ((List.range curves).map (· + 1))
+  | _ => "panic"
+
 def handleSuyama : Handler
   | ["suyama", n, seed] => do
     let n ← parseNat n; let seed ← parseNat seed
@@ -164,7 +179,9 @@ def handleSuyama : Handler
       some (ecmSelectFin chk n curves)
   | ["ecm128_select", n, curves] => do
     let n ← parseNat n; let curves ← parseNat curves
-    some (ecm128Select n curves)
+    if h : n = 0 then some (ecm128Select n curves) else
+      haveI : NeZero n := ⟨h⟩
+      some (ecm128SelectFin n curves)
   | ["curve128_from", n, tw, d, x, y, z] => do
     let n ← parseNat n; let tw ← parseBool tw
     let r := fun s => (parseNat s).map (Zn.mk' n)
